@@ -321,6 +321,13 @@ class SplitModel(object):
         s0, e0 = st["rng"]
         if isinstance(e, ast.Name) and e.id == self.p:
             return (s0, e0)
+        bvars = st.get("bvars", {})
+        if isinstance(e, ast.Name) and e.id in bvars:
+            return bvars[e.id]
+        if isinstance(e, ast.Subscript) and isinstance(e.value, ast.Name) and e.value.id in bvars and isinstance(e.slice, ast.Slice) and e.slice.step is None:
+            s0, e0 = bvars[e.value.id]
+            e = ast.Subscript(value=ast.Name(id=self.p, ctx=ast.Load()), slice=e.slice, ctx=ast.Load())
+            return self.span(e, dict(st, rng=(s0, e0), bvars={}), ov)
         if isinstance(e, ast.Constant) and isinstance(e.value, (bytes, str)) and len(e.value) == 0:
             return (e0, e0)
         if isinstance(e, ast.Call) and norm(e.func) in ("bytes",) and not e.args:
@@ -371,11 +378,19 @@ class SplitModel(object):
             return -self.ival(e.operand, st, ov)
         return self.const(e, ov)
 
+    def _is_span_expr(self, e, st):
+        """the payload, a byte-string local, or a slice of one"""
+        if isinstance(e, ast.Name):
+            return e.id == self.p or e.id in st.get("bvars", {})
+        if isinstance(e, ast.Subscript) and isinstance(e.slice, ast.Slice) and isinstance(e.value, ast.Name):
+            return e.value.id == self.p or e.value.id in st.get("bvars", {})
+        return False
+
     def _is_int_expr(self, e, st):
         """an expression that is an integer by construction (no bytes value involved)"""
         ints = st.get("ints", {})
         for x in ast.walk(e):
-            if isinstance(x, ast.Name) and x.id == self.p and not (isinstance(getattr(x, "_parent", None), ast.Call) and norm(x._parent.func) == "len") \
+            if isinstance(x, ast.Name) and (x.id == self.p or x.id in st.get("bvars", {})) and not (isinstance(getattr(x, "_parent", None), ast.Call) and norm(x._parent.func) == "len") \
                     and not isinstance(getattr(x, "_parent", None), ast.Subscript):
                 return False
             if isinstance(x, ast.Subscript) and not (isinstance(getattr(x, "_parent", None), ast.Call) and norm(x._parent.func) == "len"):
@@ -392,8 +407,11 @@ class SplitModel(object):
             return all(vals) if isinstance(t.op, ast.And) else any(vals)
         if isinstance(t, ast.Name) and t.id == self.p:
             return st["rng"][1] > st["rng"][0]
-        if isinstance(t, ast.Call) and norm(t.func) == "len" and norm(t.args[0]) == self.p:
-            return st["rng"][1] > st["rng"][0]
+        if isinstance(t, ast.Name) and t.id in st.get("bvars", {}):
+            return st["bvars"][t.id][1] > st["bvars"][t.id][0]
+        if isinstance(t, ast.Call) and norm(t.func) == "len" and len(t.args) == 1 and isinstance(t.args[0], ast.Name) and (t.args[0].id == self.p or t.args[0].id in st.get("bvars", {})):
+            a_, b_ = self.span(t.args[0], st, ov)
+            return b_ > a_
         if isinstance(t, ast.Compare) and len(t.ops) > 1:
             parts = [t.left] + list(t.comparators)
             return all(self.test(ast.Compare(left=parts[i], ops=[t.ops[i]], comparators=[parts[i + 1]]), st, ov) for i in range(len(t.ops)))
@@ -460,6 +478,9 @@ class SplitModel(object):
                 t = norm(s.targets[0])
                 if t == self.p:
                     st["rng"] = self.span(s.value, st, ov)
+                elif isinstance(s.targets[0], ast.Name) and (t in st.get("bvars", {}) or self._is_span_expr(s.value, st)):
+                    # another local that holds a slice of the payload (remaining = payload; remaining = remaining[k:])
+                    st.setdefault("bvars", {})[t] = self.span(s.value, st, ov)
                 elif t == "self.fragments" or (isinstance(s.targets[0], ast.Name) and (isinstance(s.value, ast.List) or
                                                                                     (isinstance(s.value, ast.Name) and s.value.id in st.setdefault("lists", {})))):
                     # the fragment list itself, or a local list that will become it
